@@ -11,6 +11,8 @@ use serde_json::json;
 pub struct Case {
     pub t: TSpec,
     pub layout: u8,
+    /// run infeasible_elimination before reduce (terminals then carry different cached witnesses)
+    pub elim_first: bool,
 }
 
 fn r1(a: &[f64], b: f64) -> Aff {
@@ -52,13 +54,13 @@ pub fn cases(tier: Tier) -> Vec<Case> {
     let mut out = vec![];
     // every tree with <= 7 nodes (depth <= 4)
     for (i, s) in mk(4, 7).all().into_iter().enumerate() {
-        out.push(Case { t: s, layout: (i % 3) as u8 });
+        out.push(Case { t: s, layout: (i % 4) as u8, elim_first: i % 5 == 0 });
     }
     // larger trees: depth <= 3, 8-9 (thorough: 8-10) nodes, every keep-th
     let (big, keep) = if tier == Tier::Quick { (9, 37) } else { (10, 11) };
     for (i, s) in mk(3, big).all().into_iter().enumerate() {
         if s.n_nodes() >= 8 && i % keep == 0 {
-            out.push(Case { t: s, layout: (i % 3) as u8 });
+            out.push(Case { t: s, layout: (i % 4) as u8, elim_first: i % 5 == 0 });
         }
     }
     // terminals that coincide with a predicate (a terminal next to a decision holding the same matrix and bias)
@@ -71,12 +73,26 @@ pub fn cases(tier: Tier) -> Vec<Case> {
         partial: true,
     };
     for (i, s) in gp.all().into_iter().enumerate() {
-        out.push(Case { t: s, layout: (i % 3) as u8 });
+        out.push(Case { t: s, layout: (i % 4) as u8, elim_first: i % 5 == 0 });
+    }
+    // terminals with 2x2 matrices (storage layout matters for them), differing in one entry
+    let m2 = |a: f64| Aff::new(vec![vec![1.0, a], vec![0.0, 1.0]], vec![0.5, -1.0]);
+    let g22 = TreeGen {
+        k: 2,
+        preds: vec![r1(&[1.0, 0.0], 0.0), r1(&[0.0, 1.0], 1.0)],
+        terms: vec![m2(2.0), m2(-2.0), Aff::new(vec![vec![1.0, 2.0], vec![0.0, 1.0]], vec![0.5, 1.0])],
+        max_depth: 3,
+        max_nodes: if tier == Tier::Quick { 5 } else { 7 },
+        partial: true,
+    };
+    for (i, s) in g22.all().into_iter().enumerate() {
+        out.push(Case { t: s, layout: (i % 4) as u8, elim_first: i % 5 == 0 });
     }
     for levels in 1..=4 {
         for odd in [None, Some(&t1), Some(&t2)] {
-            for layout in 0..3u8 {
-                out.push(Case { t: tower(levels, &t, odd), layout });
+            for layout in 0..4u8 {
+                out.push(Case { t: tower(levels, &t, odd), layout, elim_first: false });
+                out.push(Case { t: tower(levels, &t, odd), layout, elim_first: true });
             }
         }
     }
@@ -84,11 +100,11 @@ pub fn cases(tier: Tier) -> Vec<Case> {
 }
 
 fn build(c: &Case) -> AffTree<2> {
-    match c.layout {
-        0 => c.t.build::<2>(),
-        1 => c.t.build_bfs::<2>(),
-        _ => c.t.build_scrambled::<2>(),
+    let mut t = c.t.build_layout::<2>(c.layout);
+    if c.elim_first {
+        t.infeasible_elimination();
     }
+    t
 }
 
 /// all terminals below `i` equal and the subtree total?
@@ -117,7 +133,7 @@ pub fn run_case(c: &Case) -> CaseOut {
     let mut out = CaseOut::default();
     let tree = build(c);
     let sb = snap(&tree);
-    let rec = || json!({"tree": c.t.to_json(), "layout": c.layout, "arena_before": sb.to_json()});
+    let rec = || json!({"tree": c.t.to_json(), "layout": c.layout, "infeasible_elimination_first": c.elim_first, "arena_before": sb.to_json()});
     let mut r = tree.clone();
     out.add("real_executions", 1);
     if let Err(m) = catch(|| r.reduce()) {
